@@ -55,6 +55,8 @@ type raCase struct {
 	nonEmpty int
 	failed   string
 	fresh    uint16
+	hotPeer  []netip.Addr     // conflict mode: the multi-address peer whose addresses fall into ranges with opposite verdicts
+	hot      []netip.AddrPort // conflict mode: the underlay addresses those ranges disagree about
 }
 
 // ---- configuration ----
@@ -108,7 +110,7 @@ func (k *raCase) rules(max int) []raRule {
 	return rs
 }
 
-func newRACase(c *hx.Ctx, mapped bool) *raCase {
+func newRACase(c *hx.Ctx, mapped bool, conflict int) *raCase {
 	k := &raCase{c: c, fresh: 20000}
 	k.nets = []netip.Prefix{netip.MustParsePrefix("10.77.0.1/24")}
 	if c.Chance(0.4) {
@@ -121,6 +123,7 @@ func newRACase(c *hx.Ctx, mapped bool) *raCase {
 	k.peers = [][]netip.Addr{
 		rlParse([]string{"10.77.0.2"}), rlParse([]string{"10.77.0.3", "fd77::3"}), rlParse([]string{"10.77.0.4"}),
 		rlParse([]string{"fd77::5", "10.77.0.5"}), rlParse([]string{"192.168.50.9"}), rlParse([]string{"10.77.0.6"}),
+		rlParse([]string{"10.77.0.7", "fd77::7", "10.77.0.8"}),
 	}
 	// underlay pool: the usual mix plus addresses inside the node's own networks
 	k.p = newRLPools(c, 5+c.Intn(5))
@@ -139,7 +142,10 @@ func newRACase(c *hx.Ctx, mapped bool) *raCase {
 		k.hasGlob = true
 		k.global = k.rules(4)
 	}
-	for i, n := 0, c.Intn(3); i < n; i++ {
+	if conflict > 0 {
+		k.conflict(conflict - 1)
+	}
+	for i, n := 0, c.Intn(3); conflict == 0 && i < n; i++ {
 		cidr := []string{"10.77.0.0/24", "10.77.0.2/31", "10.77.0.4/32", "fd77::/64", "0.0.0.0/0", "10.77.0.0/29", "192.168.0.0/16"}[c.Intn(7)]
 		p := netip.MustParsePrefix(cidr)
 		if slices.ContainsFunc(k.inside, func(e struct {
@@ -158,7 +164,10 @@ func newRACase(c *hx.Ctx, mapped bool) *raCase {
 	// static hosts: every lighthouse, sometimes one more
 	statics := append([]netip.Addr{}, k.lhs...)
 	if c.Chance(0.5) {
-		statics = append(statics, k.peers[2+c.Intn(4)][0])
+		statics = append(statics, k.peers[2+c.Intn(5)][0])
+	}
+	if k.hotPeer != nil { // the conflicted peer is a static host (under one of its addresses), configured with the disputed addresses
+		statics = append(statics, k.hotPeer[c.Intn(len(k.hotPeer))])
 	}
 	for _, s := range statics {
 		if slices.ContainsFunc(k.static, func(e struct {
@@ -170,6 +179,9 @@ func newRACase(c *hx.Ctx, mapped bool) *raCase {
 			continue
 		}
 		var as []netip.AddrPort
+		if k.hotPeer != nil && slices.Contains(k.hotPeer, s) {
+			as = append(as, k.hot...)
+		}
 		for i, n := 0, 1+c.Intn(3); i < n; i++ {
 			a := k.p.ap()
 			if mapped && a.Addr().Is4() && c.Chance(0.6) {
@@ -215,6 +227,150 @@ func newRACase(c *hx.Ctx, mapped bool) *raCase {
 		}{cidr, l})
 	}
 	return k
+}
+
+// conflict: a peer with 2-3 overlay addresses (v4 + v6) whose addresses fall into different remote_allow_ranges
+// entries that disagree about one underlay address: pattern p picks which addresses allow and which deny it.
+//   {u/len: true}  allows only u (default for the family becomes deny)
+//   {u/len: false} denies only u (default allow)
+func (k *raCase) conflict(p int) {
+	c := k.c
+	multi := [][]netip.Addr{k.peers[1], k.peers[3], k.peers[6]}
+	k.hotPeer = multi[p%3]
+	patterns := [][]bool{{true, false}, {false, true}, {true, false, true}, {false, true, true}, {true, true, false}, {false, false, true}}
+	pat := patterns[(p/3)%len(patterns)]
+	u4 := netip.MustParseAddr([]string{"1.1.1.1", "203.0.113.7", "192.168.1.10", "10.0.0.1"}[c.Intn(4)])
+	u6 := netip.MustParseAddr([]string{"2001:db8::1", "2606:4700::1111", "fd12:3456::9"}[c.Intn(3)])
+	k.p.addrs = append(k.p.addrs, u4, u6)
+	k.hot = []netip.AddrPort{netip.AddrPortFrom(u4, 4242), netip.AddrPortFrom(u6, 4242)}
+	for i, a := range k.hotPeer {
+		verdict := pat[i%len(pat)]
+		cidr := netip.PrefixFrom(a, a.BitLen())
+		if c.Chance(0.3) { // a covering range instead of the host route (still separating the peer's addresses)
+			cidr = netip.PrefixFrom(a, a.BitLen()-1).Masked()
+			if slices.ContainsFunc(k.hotPeer, func(b netip.Addr) bool { return b != a && cidr.Contains(b) }) {
+				cidr = netip.PrefixFrom(a, a.BitLen())
+			}
+		}
+		rules := []raRule{{netip.PrefixFrom(u4, 32), verdict}, {netip.PrefixFrom(u6, 128), verdict}}
+		if c.Chance(0.3) { // disagree about one family only
+			rules = rules[:1]
+		}
+		k.inside = append(k.inside, struct {
+			cidr  netip.Prefix
+			rules []raRule
+		}{cidr, rules})
+	}
+	if c.Chance(0.5) { // the global list does not settle it
+		k.hasGlob, k.global = false, nil
+	}
+}
+
+// order: the peer's addresses as a certificate / hostinfo may list them (any order)
+func (k *raCase) order(p []netip.Addr) []netip.Addr {
+	q := append([]netip.Addr{}, p...)
+	k.c.Rng.Shuffle(len(q), func(i, j int) { q[i], q[j] = q[j], q[i] })
+	if k.c.Chance(0.25) && len(q) > 2 {
+		q = q[:2]
+	}
+	return q
+}
+
+func (k *raCase) anyPeer() []netip.Addr {
+	if k.hotPeer != nil && k.c.Chance(0.6) {
+		return k.order(k.hotPeer)
+	}
+	p := k.peer()
+	if k.c.Chance(0.3) {
+		return k.order(p)
+	}
+	return p
+}
+
+func (k *raCase) src() netip.AddrPort {
+	if len(k.hot) > 0 && k.c.Chance(0.6) {
+		return k.hot[k.c.Intn(len(k.hot))]
+	}
+	return k.p.ap()
+}
+
+func (k *raCase) roam(p []netip.Addr, src netip.AddrPort) {
+	took := k.lh.Roam(p, src)
+	k.emit(fmt.Sprintf("LLearn %s %s", rlAddrsLit(p), rlAPLit(src)), "OBool "+hx.Bool(took), fmt.Sprintf("roam %v from %s -> remote taken=%v", p, src, took))
+}
+
+func (k *raCase) hsCheck(p []netip.Addr, src netip.AddrPort) {
+	ok := k.lh.HandshakeSourceAccepted(p, src)
+	k.emit(fmt.Sprintf("LHsCheck %s %s", rlAddrsLit(p), rlAPLit(src)), "OBool "+hx.Bool(ok), fmt.Sprintf("handshake %v from %s -> accepted=%v", p, src, ok))
+}
+
+func (k *raCase) done(p []netip.Addr) {
+	k.lh.HandshakeDone(p)
+	k.emit("LDone "+rlAddrsLit(p), "ONone", fmt.Sprintf("handshake done %v", p))
+}
+
+// conflictScript: the boundary corpus for one conflicted peer: every AllowAll user and every Allow user sees the
+// disputed addresses, with the peer's addresses in both orders.
+func (k *raCase) conflictScript(pref []netip.Prefix) {
+	p := k.hotPeer
+	rev := append([]netip.Addr{}, p...)
+	slices.Reverse(rev)
+	for _, u := range k.hot {
+		for _, vs := range [][]netip.Addr{p, rev, p[:1], p[len(p)-1:]} {
+			k.hsCheck(vs, u)
+			k.roam(vs, u)
+			k.observe(vs[0], pref)
+		}
+	}
+	// reported for each single address (Allow, per address) by a lighthouse
+	from := k.sender()
+	for _, a := range p {
+		var v4 [][2]uint32
+		var v6 [][3]uint64
+		for _, u := range k.hot {
+			if u.Addr().Is4() {
+				v4 = append(v4, rlProtoV4(u.Addr(), uint32(u.Port())))
+			} else {
+				v6 = append(v6, rlProtoV6(u.Addr(), uint32(u.Port())))
+			}
+		}
+		old, vpn := k.detailsOf(a)
+		punched, err := k.lh.HandleRequest(from, nebula.VerifLHMsg{Type: nebula.VerifMsgQueryReply, OldVpn: old, Vpn: vpn, V4: v4, V6: v6})
+		if err != nil {
+			k.failed = err.Error()
+		}
+		_ = punched
+		k.emit(fmt.Sprintf("LQueryReply %s %d %s %s %s [] []", rlAddrsLit(from), old, optAddrLit(vpn), rlV4sLit(v4), rlV6sLit(v6)), "ONone",
+			fmt.Sprintf("LQueryReply from=%v about %s v4=%v v6=%v", from, a, v4, v6))
+		k.observe(a, pref)
+		punched, err = k.lh.HandleRequest(from, nebula.VerifLHMsg{Type: nebula.VerifMsgPunch, OldVpn: old, Vpn: vpn, V4: v4, V6: v6})
+		if err != nil {
+			k.failed = err.Error()
+		}
+		k.emit(fmt.Sprintf("LPunch %s %d %s %s %s", rlAddrsLit(from), old, optAddrLit(vpn), rlV4sLit(v4), rlV6sLit(v6)), "OPunch "+rlAPsLit(punched),
+			fmt.Sprintf("LPunch from=%v about %s -> %v", from, a, punched))
+		k.punches += len(punched)
+	}
+	// the static entries of the conflicted peer are re-filtered for all of its addresses once a handshake completes
+	for _, e := range k.static {
+		if slices.Contains(p, e.vpn) {
+			k.observe(e.vpn, pref)
+			for _, vs := range [][]netip.Addr{p, rev} {
+				if vs[0] != e.vpn { // the list the handshake refreshes is the one registered under the first address
+					vs = append([]netip.Addr{e.vpn}, slices.DeleteFunc(append([]netip.Addr{}, vs...), func(a netip.Addr) bool { return a == e.vpn })...)
+				}
+				k.done(vs)
+				k.observe(e.vpn, pref)
+				k.punchAll2(vs, pref)
+			}
+		}
+	}
+}
+
+func (k *raCase) punchAll2(p []netip.Addr, pref []netip.Prefix) {
+	w := k.lh.PunchAll(p, pref)
+	k.emit(fmt.Sprintf("LPunchAll %s %s", rlAddrsLit(p), rlPrefixesLit(pref)), "OPunch "+rlAPsLit(w), fmt.Sprintf("punch-all %v pref=%v -> %v", p, pref, w))
+	k.punches += len(w)
 }
 
 func (k *raCase) settings() map[string]any {
@@ -333,6 +489,9 @@ func (k *raCase) entries() ([][2]uint32, [][3]uint64) {
 	v4 := make([][2]uint32, n4)
 	for i := range v4 {
 		v4[i] = rlProtoV4(k.p.v4(), k.p.protoPort())
+		if len(k.hot) > 0 && c.Chance(0.4) {
+			v4[i] = rlProtoV4(k.hot[0].Addr(), uint32(k.hot[0].Port()))
+		}
 		if n4 > 8 {
 			v4[i][1] = uint32(1000 + i) // distinct entries so that the cap is visible
 		}
@@ -454,12 +613,12 @@ func (k *raCase) step(pref []netip.Prefix) {
 		k.lh.Delete(vs)
 		k.emit("LDelete "+rlAddrsLit(vs), "ONone", fmt.Sprintf("delete %v", vs))
 		touched = vs[0]
-	case r < 83:
-		p := k.peer()
-		src := k.p.ap()
-		k.lh.Roam(p, src)
-		k.emit(fmt.Sprintf("LLearn %s %s", rlAddrsLit(p), rlAPLit(src)), "ONone", fmt.Sprintf("roam %v from %s", p, src))
+	case r < 78:
+		p := k.anyPeer()
+		k.roam(p, k.src())
 		touched = p[0]
+	case r < 83:
+		k.hsCheck(k.anyPeer(), k.src())
 	case r < 92:
 		p := k.peer()
 		a := k.p.ap()
@@ -470,15 +629,15 @@ func (k *raCase) step(pref []netip.Prefix) {
 		k.emit(fmt.Sprintf("LBlock %s %s", rlAddrLit(p[0]), rlAPLit(a)), "ONone", fmt.Sprintf("block %s %s", p[0], a))
 		touched = p[0]
 	default:
-		// the right host answers after a wrong one: RefreshFromHandshake does not mark the list dirty (C37, kind
-		// stale_unblock), so here it always follows a block of a fresh address, which does
-		p := k.peer()
-		k.fresh++
-		a := netip.AddrPortFrom(netip.MustParseAddr("203.0.113.99"), k.fresh)
-		k.lh.Block(p[0], a)
-		k.emit(fmt.Sprintf("LBlock %s %s", rlAddrLit(p[0]), rlAPLit(a)), "ONone", fmt.Sprintf("block %s %s", p[0], a))
-		k.lh.HandshakeDone(p)
-		k.emit("LDone "+rlAddrsLit(p), "ONone", fmt.Sprintf("handshake done %v", p))
+		// the right host answers, sometimes after a wrong one
+		p := k.anyPeer()
+		if k.c.Chance(0.5) {
+			k.fresh++
+			a := netip.AddrPortFrom(netip.MustParseAddr("203.0.113.99"), k.fresh)
+			k.lh.Block(p[0], a)
+			k.emit(fmt.Sprintf("LBlock %s %s", rlAddrLit(p[0]), rlAPLit(a)), "ONone", fmt.Sprintf("block %s %s", p[0], a))
+		}
+		k.done(p)
 		touched = p[0]
 	}
 	if touched.IsValid() {
@@ -495,7 +654,7 @@ func (k *raCase) punchAll(pref []netip.Prefix) {
 	k.punches += len(w)
 }
 
-func (k *raCase) run(nops int, punch bool) {
+func (k *raCase) run(nops int, punch bool, script bool) {
 	defer func() {
 		if r := recover(); r != nil {
 			k.failed = fmt.Sprint("panic: ", r)
@@ -512,6 +671,9 @@ func (k *raCase) run(nops int, punch bool) {
 	// the static hosts as configured
 	for _, e := range k.static {
 		k.observe(e.vpn, pref)
+	}
+	if script {
+		k.conflictScript(pref)
 	}
 	for i := 0; i < nops; i++ {
 		if punch {
@@ -551,6 +713,17 @@ func (k *raCase) json(kind string) map[string]any {
 func runRemotesAdmit(c *hx.Ctx) {
 	cw := c.NewCaseWriter("From NV Require Import model.RemoteList model.RemotesAdmit corr.RemotesAdmit_corr.", "RemotesAdmit_corr.case", "RemotesAdmit_corr.check_case", 12)
 	var failures []map[string]any
+	addCase := func(k *raCase, kind string, nops int, punch, script bool) {
+		k.run(nops, punch, script)
+		cw.Add(k.literal(), kind, k.nonEmpty > 0 || k.punches > 0, k.json(kind))
+		if k.failed != "" {
+			failures = append(failures, map[string]any{"i": cw.Total() - 1, "code": 2, "what": k.failed})
+		}
+	}
+	// boundary corpus: every multi-address peer x every allow/deny pattern over its addresses, scripted
+	for p := 0; p < 18; p++ {
+		addCase(newRACase(c, false, p+1), "allow_all_sweep", 2, false, true)
+	}
 	for i := 0; i < c.N; i++ {
 		kind := "history"
 		punch := i%4 == 3
@@ -560,12 +733,14 @@ func runRemotesAdmit(c *hx.Ctx) {
 		if i%8 == 5 {
 			kind = "static_mapped"
 		}
-		k := newRACase(c, kind == "static_mapped")
-		k.run(3+c.Intn(10), punch)
-		cw.Add(k.literal(), kind, k.nonEmpty > 0 || k.punches > 0, k.json(kind))
-		if k.failed != "" {
-			failures = append(failures, map[string]any{"i": cw.Total() - 1, "code": 2, "what": k.failed})
+		conflict := 0
+		if i%3 == 1 {
+			conflict = 1 + c.Intn(18)
+			if kind == "history" {
+				kind = "allow_all"
+			}
 		}
+		addCase(newRACase(c, kind == "static_mapped", conflict), kind, 3+c.Intn(10), punch, false)
 	}
 	if len(failures) > 0 {
 		cw.Meta("failures", failures)
